@@ -5,9 +5,10 @@ strict reader (Spec/Boc.lean).
 import TonVerif.Model.BocEmit
 import TonVerif.Spec.Boc
 import TonVerif.Proofs.CellSpec
+import TonVerif.Properties.C18
 
 namespace TonVerif.Proofs.BocEmit
-open TonVerif TonVerif.Model
+open TonVerif TonVerif.Model TonVerif.Spec.Boc
 
 /-! ### widths -/
 
@@ -20,5 +21,350 @@ theorem lt_pow_byteWidth (n : Nat) : n < 256 ^ byteWidth n := by
   rw [pow256]
   refine Nat.lt_of_lt_of_le h (Nat.pow_le_pow_right (by decide) ?_)
   unfold byteWidth; omega
+
+theorem bitLength_le_of_lt_pow : ∀ (k n : Nat), n < 2 ^ k → bitLength n ≤ k
+  | 0, n, h => by
+    have : n = 0 := by simpa using h
+    subst this; simp [bitLength]
+  | k + 1, 0, _ => by simp [bitLength]
+  | k + 1, n + 1, h => by
+    rw [bitLength]
+    have := bitLength_le_of_lt_pow k ((n + 1) / 2) (by rw [Nat.pow_succ] at h; omega)
+    omega
+
+theorem byteWidth_le (n k : Nat) (h : n < 256 ^ k) : byteWidth n ≤ k := by
+  rw [pow256] at h
+  have := bitLength_le_of_lt_pow _ _ h
+  unfold byteWidth; omega
+
+theorem byteWidth_pos (n : Nat) (h : 1 ≤ n) : 1 ≤ byteWidth n := by
+  unfold byteWidth
+  match n, h with
+  | n + 1, _ => rw [bitLength]; omega
+
+/-! ### big-endian numbers -/
+
+theorem natToBE_length : ∀ (w v : Nat), (natToBE w v).length = w
+  | 0, _ => rfl
+  | w + 1, v => by simp [natToBE, natToBE_length w]
+
+theorem natToBE_wf : ∀ (w v : Nat), Bytes.WF (natToBE w v)
+  | 0, _ => by simp [natToBE, Bytes.WF]
+  | w + 1, v => by
+    intro b hb
+    simp only [natToBE, List.mem_append, List.mem_singleton] at hb
+    rcases hb with hb | hb
+    · exact natToBE_wf w _ b hb
+    · omega
+
+theorem natOfBE_foldl (bs : Bytes) : ∀ acc, bs.foldl (fun acc b => acc * 256 + b) acc = acc * 256 ^ bs.length + natOfBE bs := by
+  induction bs with
+  | nil => intro acc; simp [natOfBE]
+  | cons b bs ih =>
+    intro acc
+    simp only [List.foldl_cons, natOfBE, List.length_cons]
+    rw [ih, ih (0 * 256 + b)]
+    simp [Nat.pow_succ, Nat.add_mul, Nat.mul_assoc, Nat.mul_comm, Nat.add_assoc]
+
+theorem natOfBE_snoc (a : Bytes) (x : Nat) : natOfBE (a ++ [x]) = natOfBE a * 256 + x := by
+  simp [natOfBE, List.foldl_append]
+
+theorem natOfBE_natToBE : ∀ (w v : Nat), natOfBE (natToBE w v) = v % 256 ^ w
+  | 0, v => by simp [natToBE, natOfBE, Nat.mod_one]
+  | w + 1, v => by
+    rw [natToBE, natOfBE_snoc, natOfBE_natToBE w, Nat.pow_succ, Nat.mul_comm (256 ^ w) 256, Nat.mod_mul]
+    omega
+
+theorem natToBE_zero : ∀ (w : Nat), natToBE w 0 = List.replicate w 0
+  | 0 => rfl
+  | w + 1 => by
+    rw [natToBE, Nat.zero_div, natToBE_zero w]
+    simp [List.replicate_succ']
+
+/-! ### reader primitives on emitted pieces -/
+
+theorem takeN_append (a r : Bytes) (n : Nat) (h : a.length = n) : takeN n (a ++ r) = some (a, r) := by
+  subst h
+  simp [takeN]
+
+theorem uintBE_one (x : Nat) (r : Bytes) : uintBE 1 (x :: r) = some (x, r) := by
+  simp [uintBE, takeN, natOfBE]
+
+theorem uintBE_natToBE (w v : Nat) (r : Bytes) (h : v < 256 ^ w) :
+    uintBE w (natToBE w v ++ r) = some (v, r) := by
+  simp [uintBE, takeN_append _ _ _ (natToBE_length w v), natOfBE_natToBE, Nat.mod_eq_of_lt h]
+
+theorem uintsBE_flatten (w : Nat) : ∀ (vs : List Nat) (r : Bytes), (∀ v ∈ vs, v < 256 ^ w) →
+    uintsBE vs.length w ((vs.map (natToBE w)).flatten ++ r) = some (vs, r)
+  | [], r, _ => by simp [uintsBE]
+  | v :: vs, r, h => by
+    have hv := h v (by simp)
+    have ih := uintsBE_flatten w vs r (fun x hx => h x (by simp [hx]))
+    simp [uintsBE, List.append_assoc, uintBE_natToBE _ _ _ hv, ih]
+
+theorem mapM_toBytesBE (w : Nat) : ∀ (vs : List Nat), (∀ v ∈ vs, v < 256 ^ w) →
+    vs.mapM (toBytesBE? w) = some (vs.map (natToBE w))
+  | [], _ => by simp
+  | v :: vs, h => by
+    have hv := h v (by simp)
+    have ih := mapM_toBytesBE w vs (fun x hx => h x (by simp [hx]))
+    simp [List.mapM_cons, toBytesBE?, hv, ih]
+
+/-! ### abstract records: what a well-formed cell hands to `Cell.serialize` -/
+
+/-- one cell as the emitter sees it: descriptor bytes d1 d2, data bytes, reference indices -/
+structure ARec where
+  d1 : Nat
+  d2 : Nat
+  data : Bytes
+  refs : List Nat
+  deriving Repr, DecidableEq
+
+def ARec.toRec (a : ARec) : Rec := ⟨[a.d1, a.d2], a.data, a.refs⟩
+
+/-- data bits denoted by the data bytes (completion tag removed when d2 is odd) -/
+def decodeBits (d2 : Nat) (data : Bytes) : Bits :=
+  if d2 % 2 == 1 then stripTag (bytesToBits data) else bytesToBits data
+
+/-- the record the strict reader must recover -/
+def ARec.toSRec (a : ARec) : SRec := ⟨a.d1, decodeBits a.d2 a.data, a.refs⟩
+
+/-- well-formedness of one record in a bag of `n` cells -/
+structure ARec.OK (n : Nat) (a : ARec) : Prop where
+  d1_lt : a.d1 < 256
+  d2_lt : a.d2 < 256
+  nrefs : a.d1 % 8 = a.refs.length
+  refs_le : a.refs.length ≤ 4
+  noHashes : a.d1 / 16 % 2 = 0
+  dataLen : a.data.length = a.d2 / 2 + a.d2 % 2
+  dataWF : Bytes.WF a.data
+  tag : a.d2 % 2 = 1 → ∃ last, a.data.getLast? = some last ∧ last % 128 ≠ 0
+  exotic : a.d1 / 8 % 2 = 1 → 8 ≤ (decodeBits a.d2 a.data).length
+  refs_lt : ∀ j ∈ a.refs, j < n
+
+/-- serialised form of one record with `size`-byte reference indices -/
+def ARec.bytes (size : Nat) (a : ARec) : Bytes :=
+  a.d1 :: a.d2 :: (a.data ++ (a.refs.map (natToBE size)).flatten)
+
+theorem ser_eq (size n : Nat) (a : ARec) (ok : a.OK n) (hn : n ≤ 256 ^ size) :
+    Rec.ser size a.toRec = some (a.bytes size) := by
+  have : ∀ v ∈ a.refs, v < 256 ^ size := fun v hv => Nat.lt_of_lt_of_le (ok.refs_lt v hv) hn
+  simp [Rec.ser, ARec.toRec, mapM_toBytesBE size a.refs this, ARec.bytes]
+
+theorem readCell_bytes (size n : Nat) (a : ARec) (ok : a.OK n) (hn : n ≤ 256 ^ size) (rest : Bytes) :
+    readCell size (a.bytes size ++ rest) = some (a.toSRec, rest) := by
+  have hrefs : ∀ v ∈ a.refs, v < 256 ^ size := fun v hv => Nat.lt_of_lt_of_le (ok.refs_lt v hv) hn
+  have h1 : ¬ (a.d1 % 8 > 4) := by have := ok.nrefs; have := ok.refs_le; omega
+  have hu := uintsBE_flatten size a.refs rest hrefs
+  rw [← ok.nrefs] at hu
+  unfold readCell ARec.bytes
+  simp only [List.cons_append, uintBE_one, Option.bind_eq_bind, Option.bind_some, h1, if_false,
+    ok.noHashes, List.append_assoc, takeN_append _ _ _ ok.dataLen]
+  by_cases hodd : a.d2 % 2 = 1
+  · obtain ⟨last, hl, hne⟩ := ok.tag hodd
+    have hex : ¬ (a.d1 / 8 % 2 = 1 ∧ (stripTag (bytesToBits a.data)).length < 8) := by
+      intro ⟨h, h'⟩
+      have := ok.exotic h
+      simp [decodeBits, hodd] at this
+      omega
+    simp [hodd, hl, hne, hu, ARec.toSRec, decodeBits, hex]
+  · have hex : ¬ (a.d1 / 8 % 2 = 1 ∧ (bytesToBits a.data).length < 8) := by
+      intro ⟨h, h'⟩
+      have := ok.exotic h
+      simp [decodeBits, hodd] at this
+      omega
+    simp [hodd, hu, ARec.toSRec, decodeBits]
+    intro h
+    have := ok.exotic h
+    simpa [decodeBits, hodd] using this
+
+/-! ### `emit` in closed form -/
+
+theorem readCells_payload (size n : Nat) (hn : n ≤ 256 ^ size) : ∀ (as : List ARec), (∀ a ∈ as, a.OK n) →
+    readCells as.length size ((as.map (ARec.bytes size)).flatten) =
+      some (as.map (fun a => (a.toSRec, (a.bytes size).length)))
+  | [], _ => by simp [readCells]
+  | a :: as, h => by
+    have ih := readCells_payload size n hn as (fun x hx => h x (by simp [hx]))
+    have hc := readCell_bytes size n a (h a (by simp)) hn ((as.map (ARec.bytes size)).flatten)
+    simp [readCells, hc, ih]
+
+theorem mapM_ser (size n : Nat) (hn : n ≤ 256 ^ size) : ∀ (as : List ARec), (∀ a ∈ as, a.OK n) →
+    (as.map ARec.toRec).mapM (Rec.ser size) = some (as.map (ARec.bytes size))
+  | [], _ => by simp
+  | a :: as, h => by
+    have ih := mapM_ser size n hn as (fun x hx => h x (by simp [hx]))
+    simp [List.mapM_cons, ser_eq size n a (h a (by simp)) hn, ih]
+
+theorem cumulativeFrom_le : ∀ (lens : List Nat) (acc : Nat), ∀ e ∈ cumulativeFrom acc lens, e ≤ acc + lens.sum
+  | [], _, e, h => by simp [cumulativeFrom] at h
+  | l :: ls, acc, e, h => by
+    simp only [cumulativeFrom, List.mem_cons] at h
+    rcases h with h | h
+    · subst h; simp
+    · have := cumulativeFrom_le ls (acc + l) e h
+      simp; omega
+
+theorem endOffsetsFrom_eq : ∀ (lens : List Nat) (acc : Nat), endOffsetsFrom acc lens = cumulativeFrom acc lens
+  | [], _ => rfl
+  | l :: ls, acc => by simp [endOffsetsFrom, cumulativeFrom, endOffsetsFrom_eq ls]
+
+theorem length_flatten_sum (xs : List Bytes) : xs.flatten.length = (xs.map List.length).sum := by
+  simp [List.length_flatten]
+
+def flagByte (o : Opts) (size : Nat) : Nat := b2n o.hasIdx * 128 + b2n o.hasCrc * 64 + b2n o.hasCache * 32 + size
+
+theorem flags_or (o : Opts) (size : Nat) (h1 : 1 ≤ size) (h4 : size ≤ 4) (hf : o.flags = 0) :
+    (b2n o.hasIdx * 128 + b2n o.hasCrc * 64 + b2n o.hasCache * 32 + o.flags * 8 + size) ||| size = flagByte o size := by
+  have : size = 1 ∨ size = 2 ∨ size = 3 ∨ size = 4 := by omega
+  rw [hf]
+  unfold flagByte
+  rcases this with rfl | rfl | rfl | rfl <;> cases o.hasIdx <;> cases o.hasCrc <;> cases o.hasCache <;> decide
+
+
+def payloadOf (size : Nat) (as : List ARec) : Bytes := (as.map (ARec.bytes size)).flatten
+
+def lensOf (size : Nat) (as : List ARec) : List Nat := as.map (fun a => (a.bytes size).length)
+
+def indexOf (o : Opts) (off size : Nat) (as : List ARec) : Bytes :=
+  if o.hasIdx then ((cumulative (lensOf size as)).map (fun e => natToBE off (if o.hasCache then e * 2 else e))).flatten else []
+
+def sizeOf (as : List ARec) : Nat := byteWidth as.length
+def offOf (o : Opts) (as : List ARec) : Nat :=
+  byteWidth (if o.hasCache then (payloadOf (sizeOf as) as).length * 2 else (payloadOf (sizeOf as) as).length)
+
+/-- everything before the CRC -/
+def bodyOf (o : Opts) (as : List ARec) : Bytes :=
+  bocMagic ++ (flagByte o (sizeOf as) :: offOf o as :: (natToBE (sizeOf as) as.length ++ (natToBE (sizeOf as) 1 ++
+    (natToBE (sizeOf as) 0 ++ (natToBE (offOf o as) (payloadOf (sizeOf as) as).length ++ (natToBE (sizeOf as) 0 ++
+      (indexOf o (offOf o as) (sizeOf as) as ++ payloadOf (sizeOf as) as)))))))
+
+theorem toBytesBE_of_lt (w v : Nat) (h : v < 256 ^ w) : toBytesBE? w v = some (natToBE w v) := by
+  simp [toBytesBE?, h]
+
+theorem mapM_toBytesBE_comp (w : Nat) (g : Nat → Nat) : ∀ (vs : List Nat), (∀ v ∈ vs, g v < 256 ^ w) →
+    vs.mapM (fun e => toBytesBE? w (g e)) = some (vs.map (fun e => natToBE w (g e)))
+  | [], _ => by simp
+  | v :: vs, h => by
+    have hv := h v (by simp)
+    have ih := mapM_toBytesBE_comp w g vs (fun x hx => h x (by simp [hx]))
+    simp [List.mapM_cons, toBytesBE_of_lt _ _ hv, ih]
+
+theorem wf_append {a b : Bytes} (ha : Bytes.WF a) (hb : Bytes.WF b) : Bytes.WF (a ++ b) := by
+  intro x hx
+  rcases List.mem_append.1 hx with h | h
+  · exact ha x h
+  · exact hb x h
+
+theorem wf_cons {x : Nat} {b : Bytes} (hx : x < 256) (hb : Bytes.WF b) : Bytes.WF (x :: b) := by
+  intro y hy
+  rcases List.mem_cons.1 hy with h | h
+  · subst h; exact hx
+  · exact hb y h
+
+theorem wf_flatten {xs : List Bytes} (h : ∀ x ∈ xs, Bytes.WF x) : Bytes.WF xs.flatten := by
+  intro y hy
+  obtain ⟨l, hl, hyl⟩ := List.mem_flatten.1 hy
+  exact h l hl y hyl
+
+theorem bytes_wf (size n : Nat) (a : ARec) (ok : a.OK n) : Bytes.WF (a.bytes size) := by
+  unfold ARec.bytes
+  refine wf_cons ok.d1_lt (wf_cons ok.d2_lt (wf_append ok.dataWF (wf_flatten ?_)))
+  intro x hx
+  obtain ⟨v, _, rfl⟩ := List.mem_map.1 hx
+  exact natToBE_wf _ _
+
+theorem payload_wf (size n : Nat) (as : List ARec) (ok : ∀ a ∈ as, a.OK n) : Bytes.WF (payloadOf size as) := by
+  unfold payloadOf
+  refine wf_flatten ?_
+  intro x hx
+  obtain ⟨a, ha, rfl⟩ := List.mem_map.1 hx
+  exact bytes_wf size n a (ok a ha)
+
+theorem index_wf (o : Opts) (off size : Nat) (as : List ARec) : Bytes.WF (indexOf o off size as) := by
+  unfold indexOf
+  split
+  · refine wf_flatten ?_
+    intro x hx
+    obtain ⟨v, _, rfl⟩ := List.mem_map.1 hx
+    exact natToBE_wf _ _
+  · intro x hx; simp at hx
+
+theorem flagByte_lt (o : Opts) (size : Nat) (h : size ≤ 4) : flagByte o size < 256 := by
+  unfold flagByte b2n; cases o.hasIdx <;> cases o.hasCrc <;> cases o.hasCache <;> simp <;> omega
+
+theorem body_wf (o : Opts) (as : List ARec) (hsz : sizeOf as ≤ 4) (hoff : offOf o as ≤ 8) (ok : ∀ a ∈ as, a.OK as.length) :
+    Bytes.WF (bodyOf o as) := by
+  unfold bodyOf
+  refine wf_append (by decide) (wf_cons (flagByte_lt o _ hsz) (wf_cons (by omega) ?_))
+  refine wf_append (natToBE_wf _ _) (wf_append (natToBE_wf _ _) (wf_append (natToBE_wf _ _)
+    (wf_append (natToBE_wf _ _) (wf_append (natToBE_wf _ _) (wf_append (index_wf _ _ _ _) (payload_wf _ _ _ ok))))))
+
+theorem emit_eq (o : Opts) (as : List ARec) (hv : o.valid = true) (h1 : 1 ≤ as.length) (hn : as.length < 2 ^ 32)
+    (hP : (payloadOf (sizeOf as) as).length * 2 < 2 ^ 64) (ok : ∀ a ∈ as, a.OK as.length) :
+    emit (as.map ARec.toRec) o = some (bodyOf o as ++ (if o.hasCrc then crc32cLE (bodyOf o as) else [])) := by
+  have hsz1 : 1 ≤ sizeOf as := byteWidth_pos _ h1
+  have hsz4 : sizeOf as ≤ 4 := byteWidth_le _ 4 (by simpa using hn)
+  have hnlt : as.length < 256 ^ sizeOf as := lt_pow_byteWidth _
+  have hf : o.flags = 0 := by
+    simp [Opts.valid] at hv; exact hv.2
+  have hsers := mapM_ser (sizeOf as) as.length (Nat.le_of_lt hnlt) as ok
+  have hflag : toBytesBE? 1 ((b2n o.hasIdx * 128 + b2n o.hasCrc * 64 + b2n o.hasCache * 32 + o.flags * 8 + sizeOf as) ||| sizeOf as)
+      = some [flagByte o (sizeOf as)] := by
+    rw [flags_or o _ hsz1 hsz4 hf]
+    have : flagByte o (sizeOf as) < 256 := by
+      unfold flagByte b2n; cases o.hasIdx <;> cases o.hasCrc <;> cases o.hasCache <;> simp <;> omega
+    simp [toBytesBE?, this, natToBE]
+  have hPlen : (List.map (ARec.bytes (sizeOf as)) as).flatten.length = (payloadOf (sizeOf as) as).length := rfl
+  have hoff8 : offOf o as ≤ 8 := by
+    unfold offOf
+    apply byteWidth_le
+    split <;> omega
+  have hPlt : (payloadOf (sizeOf as) as).length < 256 ^ offOf o as := by
+    unfold offOf
+    split
+    · exact Nat.lt_of_le_of_lt (by omega) (lt_pow_byteWidth _)
+    · exact lt_pow_byteWidth _
+  have hoffB : toBytesBE? 1 (offOf o as) = some [offOf o as] := by
+    simp [toBytesBE?, natToBE]; omega
+  have hidx : (if o.hasIdx = true then
+      Option.map List.flatten (List.mapM (fun e => toBytesBE? (offOf o as) (if o.hasCache = true then e * 2 else e))
+        (cumulative (List.map List.length (List.map (ARec.bytes (sizeOf as)) as))))
+      else some []) = some (indexOf o (offOf o as) (sizeOf as) as) := by
+    unfold indexOf lensOf
+    by_cases hi : o.hasIdx = true
+    · simp only [hi, if_true]
+      rw [mapM_toBytesBE_comp]
+      · simp [List.map_map, Function.comp_def]
+      · intro v hv
+        have hle := cumulativeFrom_le _ 0 v hv
+        have hsum : (List.map List.length (List.map (ARec.bytes (sizeOf as)) as)).sum = (payloadOf (sizeOf as) as).length := by
+          unfold payloadOf; simp [List.length_flatten]
+        rw [hsum] at hle
+        unfold offOf
+        split
+        · exact Nat.lt_of_le_of_lt (by omega) (lt_pow_byteWidth _)
+        · exact Nat.lt_of_le_of_lt (by omega) (lt_pow_byteWidth _)
+    · simp [hi]
+  have hone : (1 : Nat) < 256 ^ sizeOf as := Nat.one_lt_pow (by omega) (by decide)
+  unfold emit
+  simp only [List.length_map]
+  rw [show byteWidth as.length = sizeOf as from rfl]
+  simp only [hflag, hsers, Option.bind_eq_bind, Option.bind_some, hPlen]
+  rw [show byteWidth (if o.hasCache = true then (payloadOf (sizeOf as) as).length * 2 else (payloadOf (sizeOf as) as).length) = offOf o as from rfl]
+  simp only [hoffB, Option.bind_some, toBytesBE_of_lt _ _ hnlt, toBytesBE_of_lt _ _ hone, toBytesBE_of_lt _ _ hPlt, hidx]
+  have hbody : bocMagic ++ [flagByte o (sizeOf as)] ++ [offOf o as] ++ natToBE (sizeOf as) as.length ++ natToBE (sizeOf as) 1 ++
+      List.replicate (sizeOf as) 0 ++ natToBE (offOf o as) (List.length (payloadOf (sizeOf as) as)) ++
+      List.replicate (sizeOf as) 0 ++ indexOf o (offOf o as) (sizeOf as) as ++ (List.map (ARec.bytes (sizeOf as)) as).flatten
+      = bodyOf o as := by
+    unfold bodyOf
+    rw [natToBE_zero]
+    simp [payloadOf, List.append_assoc]
+  rw [hbody]
+  by_cases hc : o.hasCrc = true
+  · have := Properties.C18.c18_crc32c (bodyOf o as) (body_wf o as hsz4 hoff8 ok) false
+    simp only [hc, if_true, this]
+    simp [crc32cLE]
+  · simp [hc]
 
 end TonVerif.Proofs.BocEmit
